@@ -176,6 +176,14 @@ def run_history(W, cfg):
         W.ob(f'call{k}: caller\'s input untouched', f, f0)
         F3 = lt.fourier.dft2(f, al, shape=(M, N), shift=sh, offset=of)
         W.ob(f'call{k}: the same arrays used again', F3, F)
+        # one sampling interval for both axes, written as a scalar, a one-element list and a one-element array: the same transform
+        iso = lt.fourier.dft2(f, ar, shape=(M, N), shift=(sr, sc), unitary=True)
+        W.ob(f'call{k}: alpha=[a] = alpha=a (unitary)', lt.fourier.dft2(f, [ar], shape=(M, N), shift=(sr, sc), unitary=True), iso)
+        W.ob(f'call{k}: alpha=array([a]) = alpha=a (unitary)', lt.fourier.dft2(f, W.array([ar]), shape=(M, N), shift=(sr, sc), unitary=True), iso)
+        # a real-typed spectrum handed to the inverse: the same result as the same numbers typed complex
+        fr = W.reals(f'g{k}', (m, n))
+        W.ob(f'call{k}: idft2 of real-typed input = idft2 of the same values typed complex',
+             lt.fourier.idft2(fr, (ar, ac), shape=(M, N), shift=(sr, sc)), lt.fourier.idft2(fr + 0j * 1, (ar, ac), shape=(M, N), shift=(sr, sc)))
 
 
 HARNESSES = {
